@@ -1889,7 +1889,7 @@ Lemma relf_op ss xs o ls' : RelF ss xs -> KN xs -> lstep (s_l ss) o = Some ls' -
   exists xs' es ss', x_op xs o = Some (xs', es) /\ spec_op ss o es = Some ss' /\ RelF ss' xs'.
 Proof.
   intros Q K L. destruct o as [e|l|l|ob l|ob l|ob l|ob l|ob wt|ob wt|ob wt|ob wt| |rs wt|id|].
-  - destruct e; [now apply (relf_circ ss xs _ _ _ _ ls') | now apply (relf_stream ss xs _ _ _ _ _ _ ls')].
+  - destruct e as [id st path kw|id st cid host port kw]; [now apply (relf_circ ss xs _ _ _ _ ls') | now apply (relf_stream ss xs _ _ _ _ _ _ ls')].
   - now apply (relf_listener ss xs _ ls').
   - now apply (relf_listener ss xs _ ls').
   - now apply (relf_listener ss xs _ ls').
@@ -1918,8 +1918,9 @@ Proof.
     exists (es :: tr). split; [reflexivity|]. cbn [oracle_from8]. now rewrite S.
 Qed.
 
-(* on every legal history -- any events, any listener schedule, any when_built / when_closed / close requests and
-   acknowledgements at any position -- the model runs and its trace satisfies the whole oracle *)
+(* on every legal history -- any events, any listener schedule, listeners that raise or look at TorState from inside a
+   callback, any when_built / when_closed / close requests, build_circuit() calls and answers at any position -- the
+   model runs and its trace satisfies the whole oracle *)
 Theorem oracle_all rts ops : legal8 ops = true -> exists tr, xrun rts ops = Some tr /\ oracle8 ops tr = true.
 Proof.
   intros L. apply (oracle_from ops ss0 (xinit rts) (RelF_init rts)); [split; constructor | exact L].
@@ -1943,4 +1944,34 @@ Theorem notifications_exact rts ops : legal8 ops = true ->
 Proof.
   intros L. destruct (oracle_all rts ops L) as [tr [X _]]. exists tr. split; [exact X|].
   exact (notifs_of_run ops ls0 (xinit rts) tr (Rel_init rts) L X).
+Qed.
+
+(* whatever the listeners do and whatever is requested (NEWRESOLVE included): after every operation the model performs,
+   its TorState part stands for exactly Tor's view of the history so far (C07 under C08's histories) *)
+Fixpoint xfinal (xs : xstate) (ops : list op) : option xstate :=
+  match ops with
+  | [] => Some xs
+  | o :: t => match x_op xs o with Some (xs', _) => xfinal xs' t | None => None end
+  end.
+Fixpoint lfinal (ls : lstate) (ops : list op) : option lstate :=
+  match ops with
+  | [] => Some ls
+  | o :: t => match lstep ls o with Some ls' => lfinal ls' t | None => None end
+  end.
+
+Lemma state_follows_from ops : forall ls xs xs', Rel ls xs -> legal8_from ls ops = true -> xfinal xs ops = Some xs' ->
+  exists ls', lfinal ls ops = Some ls' /\ Rel ls' xs'.
+Proof.
+  induction ops as [|o t IH]; intros ls xs xs' R L X; cbn [xfinal lfinal legal8_from] in *.
+  - injection X as <-. exists ls. auto.
+  - destruct (lstep ls o) as [l1|] eqn:E; [|discriminate].
+    destruct (x_op xs o) as [[x1 es]|] eqn:Xo; [|discriminate].
+    destruct (rel_pres ls xs o l1 x1 es R E Xo) as [R1 _]. exact (IH l1 x1 xs' R1 L X).
+Qed.
+
+Theorem state_follows_tor_view rts ops xs' : legal8 ops = true -> xfinal (xinit rts) ops = Some xs' ->
+  exists ls', lfinal ls0 ops = Some ls' /\ abs (base xs') = l_tv ls' /\ WF (base xs') /\ Complete (base xs').
+Proof.
+  intros L X. destruct (state_follows_from ops ls0 (xinit rts) xs' (Rel_init rts) L X) as [ls' [A R]].
+  exists ls'. split; [exact A|]. split; [exact (r_tv _ _ R)|]. split; [exact (r_wf _ _ R) | exact (r_cp _ _ R)].
 Qed.
